@@ -118,6 +118,9 @@ META["rule"] += (
 META["rule"] += (
     " " + 'Added after the seventh round: normalised inter-system networks, half of them from overlapping stretches of one float32 record of the caller.')
 
+META["rule"] += (
+    " " + 'Added after the eighth round: records of more than 1000 states in the rate and threshold modes in every run (all four modes in the thorough tier).')
+
 HIST = ("diagline_dist", "vertline_dist", "white_vertline_dist")
 
 
@@ -832,8 +835,9 @@ def judge_adaptive(ctx, cname, Rlib, n, size, tags, case, cid, D):
     return good
 
 
-def draw_single(ctx, mods, r, cid, nmax):
-    """Draw and run one random RecurrencePlot / RecurrenceNetwork case."""
+def draw_single(ctx, mods, r, cid, nmax, force=None):
+    """Draw and run one random RecurrencePlot / RecurrenceNetwork case
+    (force = (n, mode): a long record analysed in the given mode)."""
     cname = "RecurrenceNetwork" if r.random() < 0.5 else "RecurrencePlot"
     big = r.random() < 0.12
     n = int(r.integers(1, (nmax if big else min(nmax, 25)) + 1))
@@ -845,6 +849,9 @@ def draw_single(ctx, mods, r, cid, nmax):
             # ... or than one block of 512 / 1024 rows
             n = int(r.choice([513, 515, 1027]))
             ctx.count("sizes_beyond_512")
+    if force:
+        n = force[0]
+        ctx.count("long_records_in_a_given_mode")
     style = str(r.choice(["dyadic", "int", "plateau", "const", "f32", "f64"],
                          p=[.3, .2, .1, .05, .2, .15]))
     exact = style in EXACT
@@ -868,6 +875,8 @@ def draw_single(ctx, mods, r, cid, nmax):
                          "local_recurrence_rate",
                          "adaptive_neighborhood_size"],
                         p=[.4, .12, .2, .18, .1]))
+    if force:
+        mode = force[1]
     normalize = (not exact) and r.random() < 0.2
     if normalize and np.ndim(x) == 2 and x.shape[1] >= 2 and \
             r.random() < 0.35:
@@ -878,7 +887,7 @@ def draw_single(ctx, mods, r, cid, nmax):
             r.choice([0.0, 1.0, 2.0, 0.5, -3.0]))
         ctx.count("normalized_with_a_constant_channel")
     missing = False
-    if r.random() < 0.22 and n >= 2:
+    if r.random() < 0.22 and n >= 2 and not force:
         missing = True
         mask = r.random(np.shape(x)) < min(0.5, 1.5 / max(n, 1) + 0.1)
         if mask.any() and not mask.all():
@@ -1551,3 +1560,12 @@ def run(ctx):
             r = ctx.rng(fam, k)
             with ctx.guard(180):
                 draws[fam](ctx, mods, r, cid, nmax)
+    # records of more than 1000 states (more than a million distances), in
+    # every way of fixing the threshold
+    for j, mode in enumerate(("recurrence_rate", "threshold",
+                              "local_recurrence_rate", "threshold_std")):
+        cid = f"long:{mode}"
+        if ctx.mine(j) and ctx.want(cid) and (j < 2 or ctx.thorough):
+            with ctx.guard(300):
+                draw_single(ctx, mods, ctx.rng("long", j), cid, nmax,
+                            force=(1040 + 7 * j, mode))
